@@ -3,7 +3,7 @@
 # usage: tools/devbuild.sh [race]
 set -e
 export GOFLAGS=-mod=mod GOPROXY=off GOSUMDB=off GOTOOLCHAIN=local
-S=/var/tmp/verif.dev
+S=${DEVDIR:-/var/tmp/verif.dev}
 rm -rf $S/repo; mkdir -p $S/out
 rsync -a --exclude .git ${VERIF_REPO:-/repo}/ $S/repo/
 rm -rf $S/repo/zz_verif; cp -r /verif/sim $S/repo/zz_verif
